@@ -368,65 +368,64 @@ def _names(node):
 
 
 def _apply_wiring(ctx):
+    """Def-use wiring of LinearlyPolarizedPlaneSource.apply with every variable name read off the code itself: the
+    polarisation triple from the tuple that receives tilted_polarization_vectors(...), the field names from what is
+    stored under "_E" / "_H", the impedance from the receiver of _source_impedance(...)."""
     ix = ctx.index
     m = ix.cls("fdtdx.objects.sources.linear_polarization.LinearlyPolarizedPlaneSource").lookup_method("apply")
     ctx.unit(m.where())
-    defs = {}
-    calls = []
-    for st in ast.walk(m.node):
+    defs, calls, order = {}, [], {}
+    for i, st in enumerate(ast.walk(m.node)):
         if isinstance(st, ast.Assign) and len(st.targets) == 1:
             tg = st.targets[0]
-            if isinstance(tg, ast.Name):
-                defs.setdefault(tg.id, []).append(st.value)
-            elif isinstance(tg, ast.Tuple):
-                for el in tg.elts:
-                    if isinstance(el, ast.Name):
-                        defs.setdefault(el.id, []).append(st.value)
-        if isinstance(st, ast.AugAssign) and isinstance(st.target, ast.Name):  # H /= x  ==  H = H / x
-            defs.setdefault(st.target.id, []).append(ast.BinOp(left=ast.Name(id=st.target.id, ctx=ast.Load()), op=st.op, right=st.value))
+            for el in ([tg] if isinstance(tg, ast.Name) else tg.elts if isinstance(tg, ast.Tuple) else []):
+                if isinstance(el, ast.Name):
+                    defs.setdefault(el.id, []).append((st.lineno, st.value, st))
+        if isinstance(st, ast.AugAssign) and isinstance(st.target, ast.Name):  # X /= y  ==  X = X / y
+            defs.setdefault(st.target.id, []).append((st.lineno, ast.BinOp(left=ast.Name(id=st.target.id, ctx=ast.Load()), op=st.op, right=st.value), st))
         if isinstance(st, ast.Call):
             calls.append(st)
+    for k in defs:
+        defs[k].sort(key=lambda d: d[0])
 
-    def only_call(name, fn):
-        ds = defs.get(name, [])
-        return len(ds) == 1 and isinstance(ds[0], ast.Call) and ast.unparse(ds[0].func) == fn
+    def tuple_targets(fn_name, n):
+        for name, ds in defs.items():
+            for _, v, st in ds:
+                if isinstance(v, ast.Call) and ast.unparse(v.func).split(".")[-1] == fn_name and isinstance(st.targets[0], ast.Tuple) and len(st.targets[0].elts) == n:
+                    return [getattr(e, "id", None) for e in st.targets[0].elts], v
+        return None, None
 
-    triple = all(only_call(nm, "tilted_polarization_vectors") for nm in ("e_pol", "h_pol", "wave_vector"))
-    tp = defs.get("e_pol", [None])[0]
-    order = False
-    dir_ok = False
-    if triple:
-        for st in ast.walk(m.node):
-            if isinstance(st, ast.Assign) and st.value is tp and isinstance(st.targets[0], ast.Tuple):
-                order = [getattr(e, "id", None) for e in st.targets[0].elts] == ["e_pol", "h_pol", "wave_vector"]
-        kws = {kw.arg: ast.unparse(kw.value) for kw in tp.keywords}
-        dir_ok = kws.get("direction") == "self.direction" and kws.get("propagation_axis") == "self.propagation_axis" and kws.get("fixed_E_polarization_vector") == "self.fixed_E_polarization_vector" and kws.get("fixed_H_polarization_vector") == "self.fixed_H_polarization_vector"
-    ctx.ob("R13.5", "LinearlyPolarizedPlaneSource.apply:polarisation-triple", triple and order and dir_ok, "(e_pol, h_pol, wave_vector) are bound once, in this order, from tilted_polarization_vectors(direction=self.direction, propagation_axis=self.propagation_axis, fixed E / H from self)", {"single binding": triple, "order": order, "arguments": dir_ok}, True)
-    # E from e_pol only, H from h_pol only; H divided by the impedance
-    first_E, first_H = defs.get("E", [None])[0], defs.get("H", [None])[0]
-    okE = first_E is not None and "e_pol" in _names(first_E) and "h_pol" not in _names(first_E) and "amplitude" in _names(first_E)
-    okH = first_H is not None and "h_pol" in _names(first_H) and "e_pol" not in _names(first_H) and "amplitude" in _names(first_H)
-    ctx.ob("R13.5", "LinearlyPolarizedPlaneSource.apply:E/H-profiles", okE and okH, "the incident E profile is amplitude * e_pol, the incident H profile amplitude * h_pol", {"E": ast.unparse(first_E) if first_E is not None else None, "H": ast.unparse(first_H) if first_H is not None else None}, "amplitude * pol")
-    imp = [d for d in defs.get("H", []) if isinstance(d, ast.BinOp) and isinstance(d.op, ast.Div) and isinstance(d.left, ast.Name) and d.left.id == "H" and isinstance(d.right, ast.Name) and d.right.id == "impedance"]
-    imp_def = only_call("impedance", "_source_impedance")
-    mult = [d for d in defs.get("H", []) if isinstance(d, ast.BinOp) and isinstance(d.op, ast.Mult) and "impedance" in _names(d)]
-    ctx.ob("R13.5", "LinearlyPolarizedPlaneSource.apply:impedance", len(imp) == 1 and imp_def and not mult, "H is divided (once) by _source_impedance(...), so E/H equals the medium's wave impedance", [ast.unparse(d) for d in defs.get("H", [])], "H = H / impedance")
-    toff = [c for c in calls if ast.unparse(c.func) == "calculate_time_offset_yee"]
-    ok = len(toff) == 1
-    if ok:
-        kws = {kw.arg: ast.unparse(kw.value) for kw in toff[0].keywords}
-        ok = kws.get("wave_vector") == "wave_vector" and kws.get("time_step_duration") == "self._config.time_step_duration"
+    triple, tcall = tuple_targets("tilted_polarization_vectors", 3)
+    ok = triple is not None and all(triple) and all(len(defs.get(nm, [])) == 1 for nm in triple)
+    kws = {kw.arg: ast.unparse(kw.value) for kw in tcall.keywords} if tcall is not None else {}
+    dir_ok = kws.get("direction") == "self.direction" and kws.get("propagation_axis") == "self.propagation_axis" and kws.get("fixed_E_polarization_vector") == "self.fixed_E_polarization_vector" and kws.get("fixed_H_polarization_vector") == "self.fixed_H_polarization_vector"
+    ctx.ob("R13.5", "LinearlyPolarizedPlaneSource.apply:polarisation-triple", ok and dir_ok, "the polarisation pair and the wave vector are bound once, as one triple, from tilted_polarization_vectors(direction=self.direction, propagation_axis=self.propagation_axis, fixed E / H from self)", {"triple": triple, "arguments": dir_ok}, True)
+    if not ok:
+        return
+    e_pol, h_pol, kvec = triple
     stored = {}
     for c in calls:
-        if isinstance(c.func, ast.Attribute) and c.func.attr == "aset" and c.args and isinstance(c.args[0], ast.Constant) and len(c.args) > 1:
-            stored[c.args[0].value] = ast.unparse(c.args[1])
-    want = {"_E": "E", "_H": "H", "_time_offset_E": "time_offset_E", "_time_offset_H": "time_offset_H"}
-    st_ok = all(stored.get(k) == v for k, v in want.items())
-    tdef = False
-    for st in ast.walk(m.node):
-        if isinstance(st, ast.Assign) and toff and st.value is toff[0] and isinstance(st.targets[0], ast.Tuple):
-            tdef = [getattr(e, "id", None) for e in st.targets[0].elts] == ["time_offset_E", "time_offset_H"]
-    ctx.ob("R13.5", "LinearlyPolarizedPlaneSource.apply:time-offsets", ok and st_ok and tdef, "the Yee time offsets are computed with the same wave vector as the polarisation pair and stored, E with E and H with H", {"call": ok, "stored": stored, "unpacked in order": tdef}, want)
+        if isinstance(c.func, ast.Attribute) and c.func.attr == "aset" and c.args and isinstance(c.args[0], ast.Constant) and len(c.args) > 1 and isinstance(c.args[1], ast.Name):
+            stored[c.args[0].value] = c.args[1].id
+    nE, nH, ntE, ntH = (stored.get(k) for k in ("_E", "_H", "_time_offset_E", "_time_offset_H"))
+    first = lambda nm: defs.get(nm, [(None, None, None)])[0][1]
+    fE, fH = first(nE), first(nH)
+    okE = fE is not None and e_pol in _names(fE) and h_pol not in _names(fE)
+    okH = fH is not None and h_pol in _names(fH) and e_pol not in _names(fH)
+    amp = (_names(fE) & _names(fH)) - {e_pol, h_pol} if okE and okH else set()
+    ctx.ob("R13.5", "LinearlyPolarizedPlaneSource.apply:E/H-profiles", okE and okH and bool(amp), "what is stored as the incident E is (a common amplitude) x the E polarisation, what is stored as the incident H the same amplitude x the H polarisation", {"E": ast.unparse(fE) if fE is not None else None, "H": ast.unparse(fH) if fH is not None else None}, "amplitude * pol")
+    z = next((nm for nm, ds in defs.items() if len(ds) == 1 and isinstance(ds[0][1], ast.Call) and ast.unparse(ds[0][1].func).split(".")[-1] == "_source_impedance"), None)
+    Hdefs = [d[1] for d in defs.get(nH, [])]
+    div = [d for d in Hdefs if isinstance(d, ast.BinOp) and isinstance(d.op, ast.Div) and isinstance(d.left, ast.Name) and d.left.id == nH and isinstance(d.right, ast.Name) and d.right.id == z]
+    mult = [d for d in Hdefs if isinstance(d, ast.BinOp) and not isinstance(d.op, ast.Div) and z in _names(d)]
+    Edefs_z = [d[1] for d in defs.get(nE, []) if z in _names(d[1])]
+    ctx.ob("R13.5", "LinearlyPolarizedPlaneSource.apply:impedance", z is not None and len(div) == 1 and not mult and not Edefs_z, "the incident H (and only H) is divided, once, by _source_impedance(...), so E/H equals the medium's wave impedance", [ast.unparse(d) for d in Hdefs], "H = H / impedance")
+    toff_names, toff_call = tuple_targets("calculate_time_offset_yee", 2)
+    ok = toff_call is not None
+    if ok:
+        kws = {kw.arg: ast.unparse(kw.value) for kw in toff_call.keywords}
+        ok = kws.get("wave_vector") == kvec and kws.get("time_step_duration") == "self._config.time_step_duration"
+    ctx.ob("R13.5", "LinearlyPolarizedPlaneSource.apply:time-offsets", ok and toff_names == [ntE, ntH] and None not in (ntE, ntH), "the Yee time offsets are computed with the same wave vector as the polarisation pair and stored E with E, H with H", {"call": ok, "computed": toff_names, "stored": [ntE, ntH]}, "same wave vector; (E, H) order kept")
 
 
 def run(ctx):
